@@ -7,7 +7,6 @@ NOT_CLAIMED = {}
 
 PROPS = {
     "C06": dict(
-        claimed=False,
         claim="Refinement theorem: every operation history on the BitVec model (word-level mirror of bit_vec.rs) yields exactly the observations of a Vec<bool>, index errors panic with state unchanged, no out-of-bounds access; lifted to all histories by induction. The model is tied to the code by differential correspondence on generated histories incl. dirty backends.",
         note="Trusted: Lean kernel + {propext, Classical.choice, Quot.sound}; the hand-written model and the correspondence harness (differential testing power); usize = 64 bits; allocator never fails.",
         lean=["SuxModel.Props.C06"],
